@@ -83,8 +83,15 @@ func wrapGraphNodeError(nodeKey string, err error) error {
 			origError:         err,
 		}
 	}
-	ie.nodePath.path = append([]string{nodeKey}, ie.nodePath.path...)
-	return ie
+	// never extend ie in place: the same error object may be an item of a stream that several readers
+	// (copies, forwarding nodes) hand on at the same time
+	return &internalError{
+		typ:               ie.typ,
+		streamWrapperPath: append([]defaultImplAction(nil), ie.streamWrapperPath...),
+		nodePath:          NodePath{path: append([]string{nodeKey}, ie.nodePath.path...)},
+		origError:         ie.origError,
+		streamOrigin:      ie.streamOrigin,
+	}
 }
 
 func newStreamWrapperError(streamWrapperType defaultImplAction, err error) error {
@@ -116,8 +123,13 @@ func wrapStreamWrapperError(streamWrapperType defaultImplAction, err error) erro
 			origError:         err,
 		}
 	}
-	ie.streamWrapperPath = append([]defaultImplAction{streamWrapperType}, ie.streamWrapperPath...)
-	return ie
+	return &internalError{
+		typ:               ie.typ,
+		streamWrapperPath: append([]defaultImplAction{streamWrapperType}, ie.streamWrapperPath...),
+		nodePath:          NodePath{path: append([]string(nil), ie.nodePath.path...)},
+		origError:         ie.origError,
+		streamOrigin:      ie.streamOrigin,
+	}
 }
 
 type internalErrorType string
